@@ -121,3 +121,129 @@ def prefixof_terms(p, s):
         from .solve import _unesc
         return prefixof("".join(_unesc(x.as_string()) for x in pp), _cat(sp))
     return z3.PrefixOf(pr, _cat(sp))
+
+
+# ---- saturation of a path condition with valid consequences (substring order) -----------------------------
+def implied_nocontains(pc, cap=120, timeout_ms=150):
+    """Unit facts not contains(t, "lit") that follow from pc propositionally (decided on the string-free
+    abstraction, where z3 honours its timeout)."""
+    from .abstract import abstract, SIDE
+    atoms = {}
+    seen = set()
+    todo = list(pc)
+    while todo and len(atoms) < cap:
+        t = todo.pop()
+        if t.get_id() in seen or not z3.is_app(t):
+            continue
+        seen.add(t.get_id())
+        if t.decl().kind() == z3.Z3_OP_SEQ_CONTAINS and z3.is_string_value(t.arg(1)):
+            atoms[t.get_id()] = t
+            continue
+        if t.sort().kind() == z3.Z3_BOOL_SORT:
+            todo.extend(t.children())
+    if not atoms:
+        return []
+    s = z3.Solver()
+    s.set("timeout", timeout_ms)
+    try:
+        for c in pc:
+            s.add(abstract(c))
+    except (ValueError, z3.Z3Exception):
+        return []
+    for c in SIDE:
+        s.add(c)
+    out = []
+    for a in atoms.values():
+        s.push()
+        s.add(abstract(a))
+        if s.check() == z3.unsat:
+            out.append(z3.Not(a))
+        s.pop()
+    return out
+
+
+def saturate(pc, limit=400):
+    """Valid consequences of the unit facts of a path condition that string solvers do not find on their own:
+    the substring order (prefixof / suffixof / contains / x == a ++ b) is transitive, and a string without an
+    occurrence of a literal has no substring with one.  Returns a list of derived facts (each is implied by
+    the conjunction of pc, so adding them changes nothing semantically)."""
+    units = []
+    for c in list(pc) + implied_nocontains(pc):
+        todo = [c]
+        while todo:
+            t = todo.pop()
+            if z3.is_and(t):
+                todo.extend(t.children())
+            else:
+                units.append(t)
+    sub = {}   # id(small) -> (small, {id(big): (big, kind)})   kind: 'p' prefix, 's' suffix, 'c' substring
+    terms = {}
+    nocontain = {}  # id(big) -> set of literal strings
+
+    def edge(a, b, kind):
+        if a.get_id() == b.get_id():
+            return
+        terms[a.get_id()] = a
+        terms[b.get_id()] = b
+        sub.setdefault(a.get_id(), {})
+        old = sub[a.get_id()].get(b.get_id())
+        if old is None or (old == "c" and kind != "c"):
+            sub[a.get_id()][b.get_id()] = kind
+
+    for u in units:
+        if not z3.is_app(u):
+            continue
+        k = u.decl().kind()
+        if k == z3.Z3_OP_SEQ_PREFIX:
+            edge(u.arg(0), u.arg(1), "p")
+        elif k == z3.Z3_OP_SEQ_SUFFIX:
+            edge(u.arg(0), u.arg(1), "s")
+        elif k == z3.Z3_OP_SEQ_CONTAINS:
+            edge(u.arg(1), u.arg(0), "c")
+        elif k == z3.Z3_OP_EQ and u.arg(0).sort().kind() == z3.Z3_SEQ_SORT:
+            for x, y in ((u.arg(0), u.arg(1)), (u.arg(1), u.arg(0))):
+                ps = parts_of(y)
+                if len(ps) > 1:
+                    edge(ps[0], x, "p")
+                    edge(ps[-1], x, "s")
+                    for m in ps[1:-1]:
+                        edge(m, x, "c")
+                    for i in range(2, len(ps)):
+                        edge(_cat(ps[:i]), x, "p")
+        elif k == z3.Z3_OP_NOT:
+            v = u.arg(0)
+            if z3.is_app(v) and v.decl().kind() == z3.Z3_OP_SEQ_CONTAINS and z3.is_string_value(v.arg(1)):
+                terms[v.arg(0).get_id()] = v.arg(0)
+                nocontain.setdefault(v.arg(0).get_id(), {})[v.arg(1).get_id()] = v.arg(1)
+    # transitive closure (small graphs)
+    changed = True
+    rounds = 0
+    while changed and rounds < 6:
+        changed = False
+        rounds += 1
+        for a, outs in list(sub.items()):
+            for b, k1 in list(outs.items()):
+                for c, k2 in list(sub.get(b, {}).items()):
+                    if c == a:
+                        continue
+                    k = k1 if k1 == k2 and k1 in "ps" else "c"
+                    old = outs.get(c)
+                    if old is None or (old == "c" and k != "c"):
+                        outs[c] = k
+                        changed = True
+    out = []
+    for a, outs in sub.items():
+        ta = terms[a]
+        for b, k in outs.items():
+            tb = terms[b]
+            if k == "p":
+                out.append(z3.PrefixOf(ta, tb))
+            elif k == "s":
+                out.append(z3.SuffixOf(ta, tb))
+            for lit in nocontain.get(b, {}).values():
+                if z3.is_string_value(ta):
+                    continue
+                out.append(z3.Not(z3.Contains(ta, lit)))
+            if len(out) > limit:
+                return out
+    return out
